@@ -8,6 +8,7 @@ import Qfx.Lemmas.CodecRound
 import Qfx.Lemmas.CodecDictGroup
 import Qfx.Lemmas.CodecDictNested
 import Qfx.Lemmas.CodecDictWalk
+import Qfx.Lemmas.CodecDictExample
 import Qfx.Lemmas.CodecGroupNested
 open Qfx Qfx.Spec
 
@@ -570,36 +571,8 @@ def C13_roundtrip_dict_full : Prop :=
     (∃ gs, getGroup tmpl (f.full p.fields) = .ok gs ∧ gs.length = es.length) ∧
     ∀ t, t ≠ gt → (alFind a.b t).isSome → (alFind p.body.lookup t).isSome
 
-/-! non-vacuity of `Walk2`: NoPartyIDs(453) with nested NoPartySubIDs(802), two entries with one nested instance each -/
-def exCN : List DNode := [.mk 523 [], .mk 803 []]
-def exC : List DNode := [.mk 448 [], .mk 447 [], .mk 802 exCN]
-def exD : Dicts := { transport := none, app := some [([68], [.mk 11 [], .mk 453 exC, .mk 58 []])] }
-
-private theorem exNested : NestedGroup exD [68] 453 802 exC exCN :=
-  ⟨⟨[([68], [.mk 11 [], .mk 453 exC, .mk 58 []])], [.mk 11 [], .mk 453 exC, .mk 58 []], .mk 453 exC, .mk 802 exCN,
-     rfl, by simp [alFindB], by simp [dfind, DNode.tag], rfl, by simp [exC, dfind, DNode.tag], rfl⟩, rfl, rfl,
-   by intro n hn; simp [exCN] at hn; rcases hn with e | e <;> subst e <;> rfl⟩
-
-private theorem exWire (t : Tag) (v : Bytes) (hv : ∀ c ∈ v, c ≠ SOH) (ht : inInt64 t) : IsWire (TagValue.init t v) :=
-  canonTV_isWire _ (canon_init t v hv ht)
-
-example : Walk2 exD [68] 453 exC .outer
-    [TagValue.init 448 [97], TagValue.init 802 [49], TagValue.init 523 [120],
-     TagValue.init 448 [98], TagValue.init 802 [49], TagValue.init 523 [121]] (.inner 802 exCN) := by
-  have hng : NoGroupTag exD 448 := by
-    intro msgs h p hp
-    simp only [exD, Option.some.injEq] at h; subst h
-    simp only [List.mem_singleton] at hp; subst hp
-    simp [pathWalk, dfind, DNode.tag, exC]
-  refine .leaf (exWire _ _ (by simp [SOH]) (by simp [inInt64, TagValue.init])) (by simp [isGroupMember, exC, DNode.tag, TagValue.init]) (by simp [pathWalk, dfind, exC, DNode.tag, DNode.children, TagValue.init]) ?_
-  refine .start (CN := exCN) (exWire _ _ (by simp [SOH]) (by simp [inInt64, TagValue.init])) exNested ?_
-  refine .inner (exWire _ _ (by simp [SOH]) (by simp [inInt64, TagValue.init])) (by simp [isGroupMember, exCN, DNode.tag, TagValue.init]) ?_
-  refine .pop (exWire _ _ (by simp [SOH]) (by simp [inInt64, TagValue.init])) (by simp [isGroupMember, exCN, DNode.tag, TagValue.init])
-    (by simp [isGroupMember, exC, DNode.tag, TagValue.init]) (by simp [pathWalk, dfind, exC, DNode.tag, DNode.children, TagValue.init])
-    (by simp [isHeaderField, exD, Tag.isHeader, staticHeaderTags, TagValue.init]) (by simp [isTrailerField, exD, Tag.isTrailer, staticTrailerTags, TagValue.init]) hng ?_
-  refine .start (CN := exCN) (exWire _ _ (by simp [SOH]) (by simp [inInt64, TagValue.init])) exNested ?_
-  refine .inner (exWire _ _ (by simp [SOH]) (by simp [inInt64, TagValue.init])) (by simp [isGroupMember, exCN, DNode.tag, TagValue.init]) ?_
-  exact .nil _
+/-! non-vacuity of `Walk2` and `SegOK`: Qfx/Lemmas/CodecDictExample.lean (NoPartyIDs with nested NoPartySubIDs, two entries) -/
+example := @exWalk2
 
 /-! non-vacuity: a two-entry group with a follower, read back by the model -/
 example :
